@@ -87,4 +87,4 @@ func c29HashRun(in string) string {
 		hh(Twox256(cp())), hh(Keccak256(cp())), hh(Sha256(cp()), nil)}, " ")
 }
 
-func TestVerifC29Hash(t *testing.T) { vu.Run(t, "C29", 1500, c29HashGen, c29HashRun) }
+func TestVerifC29Hash(t *testing.T) { vu.Run(t, "C29", 800, c29HashGen, c29HashRun) }
